@@ -56,7 +56,10 @@ def cases(tier):
     # networks with a part that is calculated hydraulically but has no temperature source (p-type feeder)
     from mc.checks import c04
     for mode in ("sequential", "bidirectional"):
-        for number in (9, 24, 32, 66, 80):   # patterns that the solver returns and that leave a thermally unsupplied part
+        # patterns that the solver returns and that leave a thermally unsupplied part; in sequential mode the hydraulic
+        # step evaluates the density at tfluid_k, so only patterns whose flows are fixed by the sinks (one feeder per
+        # connected part) keep tfluid_k a pure start value there - pattern 32 (two connected feeders) is bidirectional only
+        for number in ((9, 24, 66, 80) if mode == "sequential" else (9, 24, 32, 66, 80)):
             out.append({"kind": "T", "base": {"scope": "E", "mode": mode, "number": number}, "tier": tier})
     for lc in c11.cases("quick"):
         if lc["pump"] == "circ_pump_pressure" and lc["u"] == 10.0:
